@@ -26,7 +26,15 @@ def run(ctx):
         "padding files are anonymous in the comparison (which padding file a zero byte comes from is unobservable); "
         "non-padding files are identified by path",
         "storage is in memory for the layout runs (bounds-checked), real files (filestorage) for the round trips",
-        "SHA-1 treated as collision free in the round-trip obligation",
+        "SHA-1 treated as collision free in the round-trip and verification obligations",
+        "content classes: in the exhaustive enumerations byte k carries the value k (never zero) and the verifier is run over the "
+        "fresh (zero-filled) and the fully written storage, so every all-padding piece is verified; the seeded samples add "
+        "zero-CONTENT chunks (a whole piece, a whole file, a run, a random subset) and the round-trip trees all-zero files, long "
+        "zero runs and almost-zero files; only 'content on disk = content of the piece => reported present' is judged (the converse is C01)",
+        "name classes (seeded samples, 1 in 6): two non-padding files whose raw names differ but which the cleaner / the join "
+        "map onto one on-disk name ('/' vs '_', > 255-byte names cut at the same place, invalid UTF-8 vs U+FFFD, '.' / empty components), "
+        "plain duplicates, near misses; the in-memory storage behaves like a file system (one name = one file); a rejected metainfo is "
+        "outside the property",
     ]
     os.environ.setdefault("JAVA_TOOL_OPTIONS", "-XX:ParallelGCThreads=4 -Xss64m")
 
@@ -37,6 +45,8 @@ def run(ctx):
     if not dev_skip_mc:
         ctx.tlc_mc("MC_Geometry", "MC_Geometry.cfg", timeout=1500)
         ctx.tlc_mc("MC_Geometry", ctx.pick("MC_Geometry_rw_small.cfg", "MC_Geometry_rw.cfg"), timeout=2400)
+        # zero CONTENT: every subset of the bytes is zero; a piece is present iff written or all-zero (VerifyInv)
+        ctx.tlc_mc("MC_Geometry", ctx.pick("MC_Geometry_zero_small.cfg", "MC_Geometry_zero.cfg"), timeout=2400)
     if not ctx.quick() and not dev_skip_mc:
         ctx.tlc_mc("MC_Geometry", "MC_Geometry_long.cfg", timeout=2400)
         ctx.tlc_mc("MC_Geometry", "MC_Geometry_big.cfg", timeout=3600)
@@ -72,7 +82,7 @@ def replay(ctx, drv):
     if not lays:
         raise vlib.MachineryError("replay file holds no layout line (round-trip findings: rerun the tier with seed %s)" % rep.get("seed"))
     p = ctx.path("replay_layouts.ndjson")
-    vlib.write_ndjson(p, [{k: l[k] for k in ("files", "pl", "unit", "sf", "mode")} for l in lays])
+    vlib.write_ndjson(p, [{k: l[k] for k in ("files", "pl", "unit", "sf", "mode", "zero", "nc") if k in l} for l in lays])
     files = drive(ctx, drv, ["-layouts", p, "-out", ctx.path("rp")], chunk=1000)
     judge_all(ctx, files, require_all_modes=False)
 
@@ -104,6 +114,8 @@ CORRUPTIONS = [
     ("C02.jobs.tile", lambda e: e["jobs"][0][2][0].__setitem__(2, e["jobs"][0][2][0][2] + 1)),
     ("C02.np", lambda e: e.__setitem__("np", e["np"] + 1)),
     ("C02.write.padding", lambda e: e.__setitem__("wpanic", 1)),
+    ("C02.verify", lambda e: e["vb1"].__setitem__(0, 0)),
+    ("C02.alias", lambda e: e.__setitem__("alias", 1)),
 ]
 
 
@@ -234,6 +246,7 @@ def account(ctx, e, stats, allpad):
         key = ("rt", json.dumps(e.get("files")), e.get("pl"), e.get("single"))
         ctx.count_case(key, e.get("acc") == 1)
         stats["rt"] += 1
+        stats["rt_all_zero_pieces"] += e.get("zp", 0)
         ctx.oblig("C02.roundtrip", 1)
         return
     key = (json.dumps(e["files"]), e["pl"], e["unit"], e["sf"])
@@ -242,6 +255,8 @@ def account(ctx, e, stats, allpad):
     stats[e["mode"]] += 1
     if not ok:
         stats["not_accepted"] += 1
+        if e.get("nc"):
+            stats["crafted_name_layouts_rejected"] += 1
         return
     stats["accepted"] += 1
     if e.get("pan") or e.get("hang"):
@@ -254,6 +269,13 @@ def account(ctx, e, stats, allpad):
     ctx.oblig("C02.read", sum(len(x) for x in (e["rd"] if "rd" in e else e["rds"])))
     ctx.oblig("C02.write", np_)
     ctx.oblig("C02.jobs", len(e["jobs"]))
+    if "vb1" in e:
+        ctx.oblig("C02.verify", 2 * np_)
+        stats["verify_lines"] += 1
+    if e.get("zero"):
+        stats["zero_content_layouts"] += 1
+    if e.get("nc"):
+        stats["crafted_name_layouts_accepted"] += 1
     stats["pieces"] += np_
     if any(s[3] == 1 and s[2] > 0 and any(t[3] == 0 and t[2] > 0 for t in secs[j + 1:])
            for secs in e["secs"] for j, s in enumerate(secs)):
